@@ -231,6 +231,19 @@ def res_map(I, st, depth, callee, args, body, ln):
     return TOP
 
 
+def res_map_err(I, st, depth, callee, args, body, ln):
+    v, f = args[0], args[1]
+    if isinstance(v, En):
+        vs = {}
+        if OK in v.vs:
+            vs[OK] = v.vs[OK]
+        if ERR in v.vs:
+            r = I.call_value(st, depth, f, [v.vs[ERR][0]], body, ln)
+            vs[ERR] = (r if r is not BOT else TOP,)
+        return En(vs) if vs else BOT
+    return TOP
+
+
 # ---------------------------------------------------------------------------
 # mem
 
@@ -673,6 +686,7 @@ TABLE = {
     "core::option::Option::<&T>::copied": opt_cloned,
     "core::result::Result::<T, E>::ok": res_ok,
     "core::result::Result::<T, E>::map": res_map,
+    "core::result::Result::<T, E>::map_err": res_map_err,
     "core::mem::replace": mem_replace,
     "core::mem::take": mem_take,
     "core::cmp::PartialEq::eq": eq_prim("Eq"),
